@@ -204,6 +204,8 @@ class Probe:
     def __init__(self, jit=0.0):
         self.S = 0.0
         self.margin = float("inf")
+        self.margin_strict = float("inf")   # also counts operands that are exactly equal (for finite differences)
+        self.sat = 0.0                       # largest |(a - b)/sigma| of a ContinuousConditional (saturation of the sigmoid)
         self.branches = []
         self.jit = jit   # relative perturbation of every leaf value (conditioning probe)
 
@@ -221,6 +223,7 @@ class Probe:
     def cmp(self, a, b, exact_ok):
         d = abs(a - b)
         scale = max(1.0, abs(a), abs(b))
+        self.margin_strict = min(self.margin_strict, d / scale)
         if d == 0 and exact_ok:
             return
         self.margin = min(self.margin, d / scale)
@@ -338,6 +341,7 @@ def evaluate(e, env, pr: Probe):
             _, r, a, b, tv, fv, sg = e
             a = _num(evaluate(a, env, pr)); b = _num(evaluate(b, env, pr))
             tv = _num(evaluate(tv, env, pr)); fv = _num(evaluate(fv, env, pr)); sg = _num(evaluate(sg, env, pr))
+            pr.sat = max(pr.sat, abs((a - b) / sg))
             H = 1 / (1 + math.exp((a - b) / sg))
             if r in ("Gt", "Ge"):
                 return pr.see(tv * (1 - H) + fv * H)
